@@ -11,6 +11,25 @@ BASELINE_OFF = ("cd /repo && env -u YOWSUP_VERIF /venv/bin/python -m pytest -ra 
 
 # id -> (level, technique, level text, level note, design ref)
 CHECKS = {
+    "C01": ("exploration",
+            "runtime monitor: strict tree comparator on encoder->decoder executions of the real codec (direct and through two YowCoderLayers); systematic sweep of format boundary classes + random trees",
+            "A complete systematic sweep (every dictionary word in tag/key/value position, packed digit/hex strings of every "
+            "length 1..255 incl. JID users, '@' placements, content sizes around 2^8/2^16/2^20 alone, followed by a sibling "
+            "and nested two levels down, list sizes around 128/256, every byte value) plus 3 000 (quick) / 160 000 (thorough, "
+            "incl. two ~16 MiB nodes) random trees are round-tripped through the real encoder and decoder and compared by an "
+            "independent strict comparator. Sampled above the sweep; no finite run covers all trees.",
+            "Trusted: the comparator and generators. Inputs well-formed per the quantifier.",
+            "DESIGN.md 4/C01"),
+    "C02": ("exploration",
+            "runtime monitor: differential testing against an independent reference codec (own decoder + choice-vector encoder, frozen token tables); full product of encoder choices for small trees",
+            "Direction 1: every C01 sweep case and random trees encoded by the library must be decoded to the same tree by an "
+            "independently written decoder. Direction 2: the reference encoder emits every permitted encoding (full product "
+            "of list-header/length-width/token-vs-literal/packed/JID/string-content/deflate choices for trees with few sites, "
+            "random vectors otherwise) and the library decoder must return the tree. The 1260 dictionary entries are compared "
+            "index by index with a frozen copy. The reference codec is self-checked on every vector and anchored on the byte "
+            "strings pinned in the repository's coder tests; if that fails the run is inconclusive.",
+            "Trusted: vf/refcodec.py (our reading of the format), data/tokens.json (frozen copy, independent in time only).",
+            "DESIGN.md 4/C02"),
     "C05": ("exploration",
             "runtime monitor: list-equality oracle at probe layers around the real segments layer; exhaustive chunk partitions of short streams + random long ones",
             "Every partition of every short frame list (all 2^(L-1) chunkings, L up to 15 quick / 19 thorough, two content "
